@@ -48,6 +48,7 @@ func checkC07(p *Prog, r *Report) {
 	sliceEqualityHelpers(p, r, "R13")
 	r.Rule("R14", "the announcement renderers (Information of the local device, entity and feature) build their result from the live state on every call: no result is a pointer kept in a field of the object (a memoised rendering goes stale when a description or function changes later), and rendering assigns no field of the object")
 	c07Renderers(p, r)
+	c07FunctionAlwaysAnnounced(p, r, "R16")
 	r.Rule("R15", "every peer that asks is subscribed to node management: the duplicate scan of AddSubscription compares the whole server and client feature objects with the ones the new entry is built from — two peers whose device address is not known yet have equal client addresses, a scan by address rejects the second and it is never told about entities (shared with C08-R11)")
 	scanContentRule(p, r, "R15", subMgr, []string{"ServerFeature", "ClientFeature"})
 	r.Assumes("the closure returned by the id generator factory is only stored in Entity.fIdGenerator")
@@ -422,6 +423,17 @@ func c07Discovery(p *Prog, r *Report) {
 		r.Check("R5", base+"|entities", entInfo, p.Pos(fn.Pos()), "Information() of every element of Device().Entities()")
 		r.Check("R5", base+"|features", featInfo, p.Pos(fn.Pos()), "Information() of every element of the entity's Features()")
 		r.Check("R5", base+"|device", devInfo, p.Pos(fn.Pos()), "Device().Information()")
+		// one snapshot: entity and feature information come from a single read of the entity list (two reads can
+		// straddle an AddEntity/RemoveEntity: features of an entity the reply does not list, or the reverse)
+		nSnap := 0
+		p.InScope(fn, func() {
+			forEachCall(fn, func(site ssa.CallInstruction) {
+				if c, ok := site.(*ssa.Call); ok && c.Call.IsInvoke() && c.Call.Method.Name() == "Entities" && strings.HasSuffix(Path(c.Call.Value), "Device()") {
+					nSnap++
+				}
+			})
+		})
+		r.Check("R5", base+"|one-snapshot", nSnap == 1, p.Pos(fn.Pos()), fmt.Sprintf("the entity list is read %d time(s) while the reply is assembled", nSnap))
 		r.Check("R5", base+"|unconditional", extraGuards == 0, p.Pos(fn.Pos()), fmt.Sprintf("%d conditions filter what is announced", extraGuards))
 	}
 	r.Floor("R5", "discovery reply builders", n, 1)
@@ -508,4 +520,75 @@ func isDiscoveryCmd(v ssa.Value) bool {
 		}
 	}
 	return false
+}
+
+// c07FunctionAlwaysAnnounced: AddFunctionType registers the function on every path except the two refusals that are
+// part of its contract — the role of the feature, and "already registered". Any further early exit (no data store for
+// the function, …) silently leaves a function out of every announcement.
+func c07FunctionAlwaysAnnounced(p *Prog, r *Report, rule string) {
+	r.Rule(rule, "a function added to a server or special feature is announced: AddFunctionType stores its operations on every path, except when the role forbids it or the function is registered already — no further early exit")
+	fli := p.LookupIface("api", "FeatureLocalInterface")
+	if fli == nil {
+		r.Undecided(rule, "anchor:api.FeatureLocalInterface", "", "interface not found")
+		return
+	}
+	n := 0
+	seen := map[*ssa.Function]bool{}
+	for _, fn0 := range p.ImplsOf(fli, "AddFunctionType") {
+		fn := fn0
+		if isWrapper(fn) {
+			forEachCall(fn, func(site ssa.CallInstruction) {
+				if c := site.Common().StaticCallee(); c != nil && c.Name() == fn0.Name() {
+					fn = c
+				}
+			})
+		}
+		if seen[fn] || fn.Blocks == nil {
+			continue
+		}
+		seen[fn] = true
+		var upd *ssa.MapUpdate
+		for _, b := range fn.Blocks {
+			for _, ins := range b.Instrs {
+				if mu, ok := ins.(*ssa.MapUpdate); ok && strings.HasSuffix(Path(mu.Map), "."+FN("Feature.operations")) {
+					upd = mu
+				}
+			}
+		}
+		if upd == nil {
+			r.Undecided(rule, FnName(fn)+"|shape", p.Pos(fn.Pos()), "store into the operations map not found")
+			continue
+		}
+		n++
+		var bad []string
+		for _, b := range fn.Blocks {
+			if b == fn.Recover {
+				continue
+			}
+			if _, isRet := b.Instrs[len(b.Instrs)-1].(*ssa.Return); !isRet {
+				continue
+			}
+			if upd.Block().Dominates(b) || blockReaches(upd.Block(), b) && !reachesAvoiding(fn.Blocks[0], b, upd.Block()) {
+				continue // past the registration
+			}
+			// an early exit: it must be the refusing edge of the role test or of the "already registered" test
+			allowed := false
+			gs := rawGuards(b)
+			if len(gs) > 0 {
+				g := gs[0] // the nearest dominating condition
+				pth := Path(g.Cond)
+				if bo, isB := g.Cond.(*ssa.BinOp); isB {
+					pth = Path(bo.X) + " " + Path(bo.Y)
+				}
+				if strings.Contains(pth, "."+FN("Feature.role")) || strings.Contains(pth, "Role()") || strings.Contains(pth, "."+FN("Feature.operations")+"[]") {
+					allowed = true
+				}
+			}
+			if !allowed {
+				bad = append(bad, "return at "+p.InstrPos(b.Instrs[len(b.Instrs)-1])+" under "+guardDesc(gs))
+			}
+		}
+		r.Check(rule, FnName(fn)+"|no-further-early-exit", len(bad) == 0, p.InstrPos(upd), fmt.Sprintf("early exits other than the role refusal and 'already registered': %v", bad))
+	}
+	r.Floor(rule, "implementations of AddFunctionType", n, 1)
 }
